@@ -169,3 +169,34 @@ prop("C02", level="exploration",
            "the reference outcome needs the network (at least one block obtained remotely or one link missing); distinct by (root, selector, both stores)."),
      min_nontrivial=dict(quick=200, thorough=3000),
      assumptions=_fs_assume)
+
+prop("C24", level="exploration",
+     stages=[dict(pkg="fullstack", test="TestC24", sub="random", race=True, vary_gomaxprocs=True,
+                  cases=dict(quick=500, thorough=6000), timeout=3600)],
+     technique="runtime monitoring: wire-log monitor on the fabric (every connect / sender / message of the requestor, every block sent by the responder) checked against the reference traversal's local-prefix length and occurrence indices; Go race detector",
+     level_text=("Real requestor and responder on the instrumented fabric; the wire log and the requestor's network call counters are checked "
+                 "against the reference model: no network activity when every needed block is local; the first request's do-not-send-first-blocks "
+                 "value equals max(user value, blocks loaded locally before the first miss); no block whose occurrences all lie in the skipped "
+                 "prefix, no do-not-send-cids block and no block twice on the wire."),
+     level_note="A re-occurrence (index > skip) of a block whose first occurrence was skipped may be sent or not (the statement can be read either way).",
+     rule=("One evaluation = one generated case (splits biased to requestor-holds-prefix/all/none; a third with user-supplied do-not-send-first-blocks or "
+           "do-not-send-cids). Non-trivial = the case was executed and its wire log compared; distinct by (root, selector, stores, user extensions)."),
+     min_nontrivial=dict(quick=200, thorough=2000),
+     min_counters=dict(all_local_cases=dict(quick=50, thorough=500), requests_with_skip=dict(quick=80, thorough=800)),
+     assumptions=_fs_assume)
+
+prop("C03", level="exploration",
+     stages=[dict(pkg="fullstack", test="TestC03", sub="random", race=True, vary_gomaxprocs=True,
+                  cases=dict(quick=500, thorough=8000), timeout=3600)],
+     technique="runtime monitoring: scripted raw requestor peer -> real responder; every response message recorded on the fabric is compared with reference model 2 (responder's own traversal + send rule written from the statement); store gates make overlapping requests deterministic; Go race detector",
+     level_text=("A scripted raw peer sends requests (all combinations of do-not-send-cids, do-not-send-first-blocks incl. 0/1/k/total/total+5/negative, "
+                 "dedup-by-key) to a real responder; the concatenated metadata must equal the responder's own traversal (link, present|missing) list, "
+                 "every block must travel with its metadata entry exactly when the rule requires it, no other block may appear, and the final status must "
+                 "match. Sequential requests must be served in full again; overlapping requests (request 1 held at a store gate) must omit exactly what "
+                 "request 1 already traversed with a block in the same scope."),
+     level_note="Don't-care: a re-occurrence (index > skip) of a block whose first occurrence fell inside the skipped prefix may be sent or not. For the held request of an overlapping pair only 'no forbidden block' is checked for its tail.",
+     rule=("One evaluation = one generated (DAG, responder store, selector, extension combination, mode in {single, sequential, overlap}) scenario. "
+           "Non-trivial = executed and every received response message compared; distinct by (root, selector, store, mode, extensions)."),
+     min_nontrivial=dict(quick=200, thorough=3000),
+     min_counters=dict(overlap_cases=dict(quick=40, thorough=600)),
+     assumptions=_fs_assume)
